@@ -19,12 +19,14 @@ UNKNOWN_TYPES = [60000, 61234, 65535, 30000]      # not registered: the decoder 
 def run_jobs(exe, jobs, env=None, crash_ok=False):
     """jobs: list of (prefix_lines, lines). Each job is sharded; every shard is preceded by the prefix (whose
     outputs are dropped).  Returns list of output lists, one per job."""
-    total = sum(len(l) for _, l in jobs) or 1
+    total = sum(len(j[1]) for j in jobs) or 1
     chunk = max(3000, total // (vf.NCPU * 3) + 1)
     shards = []
-    for ji, (pre, lines) in enumerate(jobs):
-        for a in range(0, max(1, len(lines)), chunk):
-            shards.append((ji, a, pre, lines[a:a + chunk]))
+    for ji, job in enumerate(jobs):
+        pre, lines = job[0], job[1]
+        ch = job[2] if len(job) > 2 else chunk          # per-job shard size (expensive lines: small shards)
+        for a in range(0, max(1, len(lines)), ch):
+            shards.append((ji, a, pre, lines[a:a + ch]))
 
     def one(s):
         ji, a, pre, lines = s
@@ -95,6 +97,12 @@ def crc_part(ctx, rn):
     for _ in range(nbig[1]):
         n = r.choice([65536, 65535, r.randint(16384, 65536)])
         lines.append('C %s %d' % (r.randbytes(n).hex(), r.choice([0, r.randrange(M32)])))
+    # size classes: around 1 KiB, 4 KiB, 16 KiB, 64 KiB and beyond (a block / SIMD path may engage only on large inputs)
+    big_sizes = [1023, 1024, 1025, 4095, 4096, 4097, 16383, 16384, 16385, 65535, 65536, 65537, 70001]
+    if ctx.thorough:
+        big_sizes += [131077, 262144 + 3, 1 << 20]
+    for n in big_sizes:
+        lines.append('C %s %d' % (r.randbytes(n).hex(), r.choice([0, r.randrange(M32)])))
     # structured buffers: all zero / all ones / single set bit (the CRC's affine part and linear part in isolation)
     for n in (1, 2, 3, 4, 5, 8, 31, 32, 33, 255, 256, 1000):
         lines.append('C %s 0' % ('00' * n)); lines.append('C %s 0' % ('ff' * n)); lines.append('C %s 0' % ('00' * (n - 1) + '80')); lines.append('C %s 0' % ('01' + '00' * (n - 1)))
@@ -110,6 +118,11 @@ def crc_part(ctx, rn):
         b = r.randbytes(n).hex()
         for k in {0, n, r.randint(0, n), r.randint(0, n)}:
             lines.append('S %s %d' % (b, k))
+    for n in ((1024, 4096, 4099, 16384, 65536, 70001) if ctx.thorough else (1024, 4099, 70001)):           # large buffers: splits near both ends and at block boundaries
+        b = r.randbytes(n).hex()
+        for k in sorted({0, 1, 3, 4, 5, 7, 8, 64, 1024, 4096, n - 8, n - 5, n - 4, n - 3, n - 1, n, r.randint(0, n)}):
+            if 0 <= k <= n:
+                lines.append('S %s %d' % (b, k))
     nl0 = len(lines)
     for _ in range(300):                                        # CalculateCRC(buf, len, init) on a prefix
         n = r.randint(0, 40)
@@ -173,6 +186,11 @@ def enc_part(ctx, rn):
         s0 = r.choice([r.randrange(M32), r.randrange(M32), M32 - r.randint(1, 6)])
         scen.append((s0, [(r.randrange(65536), r.randrange(256), r.randrange(M32), r.randbytes(r.randint(0, 64))) for _ in range(r.randint(1, 8))]))
     scen.append((7, [(60000, 3, 9, r.randbytes(70000))]))
+    # histories on ONE encoder: the same type with different source ids, interleaved types, sizes from 0 to 16 KiB
+    scen.append((11, [(60000, 1, src, r.randbytes(5)) for src in (0, 1, 2, 1, 0, M32 - 1, 7, 7)]))
+    scen.append((M32 - 4, [(t, 0, src, r.randbytes(n)) for t, src, n in ((60000, 1, 0), (61234, 2, 3), (60000, 2, 0), (10000, 1, 140), (61234, 1, 1), (60000, 1, 9), (65535, 0, 0), (60000, 3, 2))]))
+    scen.append((3, [(60000, 0, 0, r.randbytes(n)) for n in (0, 1000, 0, 4096, 1, 16360, 16384, 0)]))
+    scen.append((M32 - 2, [(61234, 5, 9, b'')] * 5))
     # corpus: the counter overflow seen before the repair
     for p in sorted(glob.glob(os.path.join(vf.VERIF, 'corpus', 'C06', '*.json'))):
         j = json.load(open(p))
@@ -183,7 +201,12 @@ def enc_part(ctx, rn):
     for t, v, src in ((65536, 0, 0), (1, 256, 0), (1, 0, M32), (70000, 300, M32 + 5)):
         scen.append((0, [(t, v, src, b'\x01\x02')]))
     scen.append((M32, [(1, 0, 0, b'')]))       # a counter set by hand beyond 32 bits
-    lines = ['ENC %d %s' % (s0, ','.join('%d:%d:%d:%s' % (t, v, src, p.hex() or '-') for t, v, src, p in calls)) for s0, calls in scen]
+    # encode after an exception: the refused call must leave an encoder that keeps working
+    scen.append((5, [(60000, 0, 1, b'\x01'), (60000, 0, M32, b'\x02'), (60000, 0, 2, b'\x03'), (61234, 0, 3, b'')]))
+    scen.append((M32 - 2, [(70000, 0, 1, b''), (60000, 0, 1, b'\x05'), (60000, 256, 1, b''), (60000, 1, 1, b'\x06\x07'), (60000, 1, 2, b'')]))
+    # every payload form pack() may return: bytes, bytearray, memoryview (rotating)
+    lines = ['ENC %d %s' % (s0, ','.join('%d:%d:%d:%s:%s' % (t, v, src, p.hex() or '-', 'bam'[(si + ci) % 3]) for ci, (t, v, src, p) in enumerate(calls)))
+             for si, (s0, calls) in enumerate(scen)]
     py = run_jobs(PYH, [([], lines)], vf.IMPL_ENV)[0]
     mdl = run_jobs(rn.model, [([], lines)])[0]
     produced = []
@@ -191,9 +214,21 @@ def enc_part(ctx, rn):
         ctx.case(('enc', i)); ctx.count('encode:scenario' if i < indom else 'encode:out-of-domain')
         outs, final = a.split(' ')
         outs = outs.split(',')
+        if '!' in a:
+            ctx.violation({'op': 'encode', 'class': 'argument-modified-or-result-aliases-argument'},
+                          'encode_message modified the payload it was given or returned a buffer that shares memory with it: %s' % [o[o.index('!'):] for o in outs if '!' in o][:3],
+                          {'op': 'encode', 'initial_sequence_number': s0, 'line': l if len(l) < 3000 else None, 'impl': a[:3000]})
+            continue
         norm = ','.join('ERR' if o.startswith('ERR') else o for o in outs) + ' ' + final
         case = {'op': 'encode', 'initial_sequence_number': s0, 'calls': [(t, v, src, p.hex() if len(p) < 200 else '<%d bytes>' % len(p)) for t, v, src, p in calls],
                 'line': l if len(l) < 3000 else None, 'impl': a if len(a) < 3000 else a[:3000], 'model': b if len(b) < 3000 else b[:3000]}
+        if i >= indom:
+            # out-of-domain histories: the in-range calls that follow a refused one must still be valid messages
+            for k, ((t, v, src, p), o) in enumerate(zip(calls, outs)):
+                if t < 65536 and v < 256 and src < M32 and s0 + k < M32 and not o.startswith('ERR'):
+                    ob = bytes.fromhex(o)
+                    if t in UNKNOWN_TYPES and len(ob) <= 64:
+                        produced.append(('raw type=%d len=%d' % (t, len(p)), ob, t))
         if i < indom:
             bad = None
             for k, ((t, v, src, p), o) in enumerate(zip(calls, outs)):
@@ -340,12 +375,14 @@ COVERED = ('one-bit', 'two-bit', 'burst-in-region', 'burst-in-crc-field')
 
 def corrupt_part(ctx, rn, messages):
     """messages: list of (label, bytes, msgtype). Every error pattern is applied by each runner to the base message."""
-    budget = {'two': 20000, 'burst_rand': 2, 'burst_max': 150000} if ctx.thorough else {'two': 3000, 'burst_rand': 1, 'burst_max': 40000}
+    budget = {'two': 20000, 'burst_rand': 2, 'burst_max': 150000} if ctx.thorough else {'two': 2500, 'burst_rand': 1, 'burst_max': 32000}
     jobs, meta = [], []
     for label, msg, _ in messages:
-        errs = list(gen_errors(ctx, len(msg), budget))
+        large = len(msg) > 600
+        errs = list(gen_errors_sampled(ctx, len(msg), (40 if ctx.thorough else 8) if len(msg) < 20000 else (12 if ctx.thorough else 4))) if large else list(gen_errors(ctx, len(msg), budget))
         lines = ['E ' + enc_err(bits_to_flips(b)) for _, b in errs]
-        jobs.append((['FM 131072', 'B ' + msg.hex()], ['E 0 00'] + lines))       # first line: the uncorrupted message
+        # first line: the uncorrupted message; large messages: the (quadratic) reference scans are left out of the analysis
+        jobs.append((['FM 131072', 'NOSCAN %d' % large, 'B ' + msg.hex()], ['E 0 00'] + lines) + ((max(4, 400000 // len(msg)),) if large else ()))
         meta.append(errs)
     py, cpp, mdl = rn.all3(jobs)
     straddle_acc = 0
@@ -381,6 +418,11 @@ def corrupt_part(ctx, rn, messages):
                                   {'op': 'corrupt', 'message': label, 'msg_hex': msg.hex(), 'class': cls, 'flips': bits, 'touches_size_field': touches, 'impl_cpp': ic, 'model_and_spec': im})
                 continue
             a, c, m = kv(ip), kv(ic), kv(im)
+            if 'EXC:' in ip or 'HARNESS-ERR' in ip:
+                ctx.violation({'op': 'corrupt', 'class': 'unexpected-exception', 'touches_size_field': touches, 'spec_accepts': False},
+                              'an exception other than ValueError / struct.error escapes unpack(validate_crc=True) or on_data() on a corrupted %s (%r): %s' % (label, bits, ip[:120]),
+                              {'op': 'corrupt', 'message': label, 'msg_hex': msg.hex(), 'class': cls, 'flips': bits, 'touches_size_field': touches, 'impl_python': ip})
+                continue
             ctx.evals += 1
             ctx.count('corrupt:' + cls + ('(size field hit)' if touches else ''))
             acc = [w for w, hit in (('validate_crc', a['V'] == 'ok'), ('IsValid', c['I'] == '1'),
@@ -406,6 +448,8 @@ def corrupt_part(ctx, rn, messages):
             if case and (a['V'], c['I'], c['C1']) != (m['V'], m['I'], m['C1']):
                 ctx.broken_correspondence('validate_crc / IsValid / CalculateCRC(buffer) model differs from the implementation on a corrupted message', case)
             # decoder / framer beyond offset 0 are other properties' models (C04, C07): advisory
+            if m['S'] == '?':
+                continue
             if a['D'] != m['S'] and not acc:
                 ctx.count('advisory:decoder-differs-from-scan')
             if c['F'] != m['SE'] and not acc:
@@ -444,6 +488,172 @@ def header_object_part(ctx, rn, messages):
             ctx.broken_correspondence('validate_crc changes the header object (crc / payload_size_bytes after the calls differ from the model)', case)
 
 
+
+def header_history_part(ctx, rn, messages):
+    """random histories on ONE MessageHeader object: set fields, calculate_crc, pack (plain, with payload, into a
+    sentinel-filled caller buffer at an offset), unpack(validate_crc=True) of good and corrupted messages, validate_crc
+    of several buffers in turn.  The model is a function of the header fields and the arguments only."""
+    r = ctx.rng
+    msgs = [m for _, m, _ in messages if len(m) <= 200]
+    lines = []
+    nhist = 600 if ctx.thorough else 150
+    for _ in range(nhist):
+        ops = ['N:%d' % r.choice(UNKNOWN_TYPES + [10000, 0]), 'S:%d:%d:%d' % (r.randrange(256), r.choice([0, M32 - 1, r.randrange(M32)]), r.choice([0, M32 - 1, r.randrange(M32)]))]
+        for _ in range(r.randint(2, 9)):
+            k = r.random()
+            pl = r.randbytes(r.choice([0, 0, 1, 3, 17, 60]))
+            f = r.choice('bam')
+            if k < 0.12:
+                ops.append('S:%d:%d:%d:%d:%d' % (r.randrange(256), r.randrange(M32), r.randrange(M32), r.randrange(M32), r.choice([0, 0, 7, 65535])))
+            elif k < 0.27:
+                ops.append('C:%s:%s' % (pl.hex(), f))
+            elif k < 0.37:
+                ops.append('P')
+            elif k < 0.52:
+                ops.append('Q:%s:%s' % (pl.hex(), f))
+            elif k < 0.62:
+                off = r.choice([0, 1, 3, 8])
+                ops.append('B:%s:%d:%d' % (pl.hex(), off, off + 24 + len(pl) + r.choice([0, 1, 5])))
+            else:
+                m = r.choice(msgs)
+                bad = bytearray(m)
+                if r.random() < 0.6:
+                    i = r.choice([4, 7, 9, 12, 20, len(m) - 1]); bad[i] ^= 1 << r.randrange(8)
+                buf = bytes(bad) if r.random() < 0.8 else bytes(bad[:r.choice([3, 23, 24, max(24, len(m) - 1)])])
+                if k < 0.8:
+                    ops.append('U:%s' % buf.hex())
+                else:
+                    off = r.choice([0, 0, 2])
+                    ops.append('V:%s:%d' % ((r.randbytes(off) + buf).hex() or '00', off))
+            if r.random() < 0.4:
+                ops.append('F')
+        ops.append('F'); ops.append('P')
+        lines.append('HH ' + ' '.join(ops))
+    py = run_jobs(PYH, [([], lines)], vf.IMPL_ENV)[0]
+    mdl = run_jobs(rn.model, [([], lines)])[0]
+    for l, a, b in zip(lines, py, mdl):
+        ctx.case(('hh', l[:80], len(l))); ctx.count('header-object:history'); ctx.count('header-object:op', l.count(' '))
+        if a != b:
+            ta, tb = a.split(' '), b.split(' ')
+            k = next((i for i, (x, y) in enumerate(zip(ta, tb)) if x != y), min(len(ta), len(tb)))
+            op = l.split(' ')[1:][k] if k < l.count(' ') else '?'
+            cls = 'argument-modified-or-aliased' if '!' in a else ('unexpected-exception' if 'EXC:' in a else 'result-depends-on-earlier-calls-or-differs-from-definition')
+            ctx.violation({'op': 'header-history', 'class': cls, 'step': op.split(':')[0]},
+                          'history on one MessageHeader object: step %d (%s) gives %s, the definition gives %s' % (k + 1, op[:60], (ta[k] if k < len(ta) else '-')[:80], (tb[k] if k < len(tb) else '-')[:80]),
+                          {'op': 'header-history', 'full_line': l, 'impl': a, 'spec_and_model': b})
+
+
+DEC_OPTS = ['woe=NONE', 'woe=LIKELY,log=warn', 'woe=ALL,log=debug,wu=1,wg=1', 'woe=all,log=trace', 'woe=likely,rb=0,ro=0', 'woe=none,rb=1,ro=0,wg=1',
+            'woe=True,rb=0,ro=1,wu=1,log=debug', 'woe=False,log=trace,wg=1,wu=1']
+CHUNKINGS = ['all', 'ints', '1', '7,1,30', '24', '5,64']
+
+
+def stream_part(ctx, rn, produced):
+    """a corrupted message inside a stream of valid ones, through ONE decoder / ONE framer with every warning / logging /
+    return option and several chunkings: the corrupted message is not reported, no exception escapes, and every message
+    a left-to-right scan accepts afterwards still comes out (a corrupted size field must not wedge the receiver)."""
+    r = ctx.rng
+    pool = [ob for l, ob, t in produced if l.startswith('raw') and t in UNKNOWN_TYPES and 24 <= len(ob) <= 200]
+    seen, uniq = set(), []
+    for ob in pool:                      # distinct (length, sequence, crc) so that frames are identifiable
+        k = (len(ob),) + struct.unpack_from('<I', ob, 12) + struct.unpack_from('<I', ob, 4)
+        if k not in seen:
+            seen.add(k); uniq.append(ob)
+    if len(uniq) < 6:
+        ctx.notes.append('stream part skipped: too few distinct raw messages'); return
+    nst = 60 if ctx.thorough else 16
+    cases = []
+    for si in range(nst):
+        a, b, c, d = r.sample(uniq, 4)
+        n = len(b)
+        pats = []
+        for _ in range(6):
+            pats.append([(r.randrange(4, n), r.randrange(8))])                                  # one bit
+            i, j = r.sample(range(32, 8 * n), 2); pats.append([(i // 8, i % 8), (j // 8, j % 8)])     # two bits
+            p0 = r.randrange(64, 8 * n - 1); w = r.randint(2, min(32, 8 * n - p0))
+            pats.append([((p0 + k) // 8, (p0 + k) % 8) for k in range(w) if k in (0, w - 1) or r.random() < 0.5])
+        # the size field: shrink, grow a little (into the next message), grow beyond the stream, grow beyond every limit, wrap
+        psz = n - 24
+        for new in {max(0, psz - 1), 0, psz + 1, psz + len(c) // 2, psz + len(c), psz + len(c) + len(d) + 5, 1 << 16, (1 << 24) + 1, 0x7FFFFFFF, 0xFFFFFFE8, 0xFFFFFFFF, psz ^ 0x100}:
+            if new != psz:
+                x = struct.pack('<I', psz ^ new)
+                pats.append([(16 + i, bit) for i in range(4) for bit in range(8) if x[i] >> bit & 1])
+        junk = r.randbytes(r.choice([0, 0, 3]))
+        for pi, bits in enumerate(pats):
+            bad = bytearray(b)
+            for by, bi in bits:
+                bad[by] ^= 1 << bi
+            stream = a + junk + bytes(bad) + c + d + r.randbytes(r.choice([0, 2]))
+            cases.append((stream, len(a) + len(junk), bits, DEC_OPTS[(si + pi) % len(DEC_OPTS)], CHUNKINGS[(si * 7 + pi) % len(CHUNKINGS)], (si + pi) % 2))
+    cap = 4096
+    pl = ['ST %s %s %s' % (o, ch, st.hex()) for st, _, _, o, ch, _ in cases]
+    cl = ['ST %d %d %s %s' % (w, cap, 'bytes' if ch == 'ints' else ch, st.hex()) for st, _, _, _, ch, w in cases]
+    ml = ['ST lazy 16777216 %s' % st.hex() for st, _, _, _, _, _ in cases]
+    me = ['ST eager %d %s' % (cap - 24, st.hex()) for st, _, _, _, _, _ in cases]
+    with ThreadPoolExecutor(4) as ex:
+        fp = ex.submit(run_jobs, PYH, [([], pl)], vf.IMPL_ENV); fc = ex.submit(run_jobs, rn.cpp, [([], cl)], ASAN_ENV, True)
+        fm = ex.submit(run_jobs, rn.model, [([], ml)]); fe = ex.submit(run_jobs, rn.model, [([], me)])
+        py, cpp, sl, se = fp.result()[0], fc.result()[0], fm.result()[0], fe.result()[0]
+
+    def frames(t):
+        t = t.split('!')[0]
+        return [] if t in ('-', '') else [f.split('@')[0] for f in t.split(';')]
+    for (st, off, bits, o, ch, w), a, c, s1, s2 in zip(cases, py, cpp, sl, se):
+        ctx.case(('st', st[:40], len(st), o, ch)); ctx.count('stream:corrupted-message-among-valid-ones')
+        touches = any(16 <= by <= 19 for by, _ in bits)
+        for who, got, spec, opts in (('python-decoder', a, s1, '%s chunks=%s' % (o, ch)), ('cpp-framer', c, s2, 'WarnOnError=%d chunks=%s' % (w, ch))):
+            case = {'op': 'stream', 'receiver': who, 'options': opts, 'stream_hex': st.hex(), 'corrupted_message_offset': off, 'flips': bits,
+                    'py_line': 'ST %s %s %s' % (o, ch, st.hex()), 'cpp_line': 'ST %d %d %s %s' % (w, cap, 'bytes' if ch == 'ints' else ch, st.hex()), 'impl': got, 'spec': spec}
+            if got.startswith('CRASH') or got.startswith('EXC:'):
+                ctx.violation({'op': 'stream', 'class': 'exception-or-crash-escapes', 'receiver': who}, '%s (%s) on a stream with a corrupted message: %s' % (who, opts, got[:100]), case)
+                continue
+            if '!' in got:
+                ctx.violation({'op': 'stream', 'class': 'results-aliased-or-callbacks-missing-or-over-read', 'receiver': who}, '%s (%s): %s' % (who, opts, got[got.index('!'):][:100]), case)
+                continue
+            fi, fs = frames(got), frames(spec)
+            spec_at = [f for f in spec.split(';') if f.endswith('@%d' % off)]
+            # the corrupted message itself: identified by its offset (python with return_offset; C++ by content search)
+            reported_bad = [f for f in got.split('!')[0].split(';') if f.endswith('@%d' % off)] and not spec_at
+            lost = [f for f in fs if f not in fi]
+            extra = [f for f in fi if f not in fs]
+            if reported_bad:
+                ctx.violation({'op': 'stream', 'class': 'corrupted-message-reported', 'receiver': who, 'touches_size_field': touches},
+                              '%s (%s) reports the corrupted message at offset %d (pattern %r)' % (who, opts, off, bits), case)
+            elif lost:
+                ctx.violation({'op': 'stream', 'class': 'valid-message-lost-after-corruption', 'receiver': who, 'touches_size_field': touches},
+                              '%s (%s) does not report %s although a left-to-right scan accepts it (corrupted message at %d, pattern %r)' % (who, opts, lost[:2], off, bits), case)
+            elif extra and who == 'python-decoder':
+                ctx.violation({'op': 'stream', 'class': 'message-reported-that-the-scan-rejects', 'receiver': who, 'touches_size_field': touches},
+                              '%s (%s) reports %s which a left-to-right scan does not accept' % (who, opts, extra[:2]), case)
+            elif extra or fi != fs:
+                ctx.count('advisory:framer-differs-from-scan(stream)')
+
+
+def gen_errors_sampled(ctx, n, k):
+    """a sample of the same classes for large messages (positions at both ends, the middle and at random)"""
+    r = ctx.rng
+    nR = 8 * (n - 8)
+    Rb = lambda q: (8 + q // 8, q % 8)
+    spots = sorted({0, 8, 63, 128 + 8 * 16, nR // 2, nR - 33, nR - 8, nR - 1} | {r.randrange(nR) for _ in range(k)})
+    spots = [q for q in spots if 0 <= q < nR]
+    for q in spots:
+        yield 'one-bit', [Rb(q)]
+    for q in range(32):
+        if q % 5 == 0:
+            yield 'one-bit', [(4 + q // 8, q % 8)]
+    for _ in range(k):
+        i, j = r.sample(range(nR), 2)
+        yield 'two-bit', [Rb(i), Rb(j)]
+    yield 'two-bit', [Rb(0), Rb(nR - 1)]
+    yield 'two-bit', [(4, 0), Rb(nR - 1)]
+    for q in spots:
+        for w in ((2, 9, 31, 32) if ctx.thorough else (2, 32)):
+            if q + w <= nR:
+                yield 'burst-in-region', [Rb(q + t) for t in range(w) if t in (0, w - 1) or r.random() < 0.5]
+    yield 'burst-in-crc-field', [(4, 3), (7, 7)]
+    yield 'burst-straddling-crc-and-region', [(7, 7), (8, 0)]
+
+
 def pick_messages(ctx, produced):
     r = ctx.rng
     out = []
@@ -457,8 +667,12 @@ def pick_messages(ctx, produced):
         if label.startswith('raw') and t in UNKNOWN_TYPES and len(ob) <= 64:
             raws.setdefault(len(ob), (label, ob, t))
     sizes = sorted(raws)
-    want = sizes if ctx.thorough else ([s for s in sizes if s in (24, 25, 26, 31)] + sizes[-1:])[:5]
+    want = sizes if ctx.thorough else ([s for s in sizes if s in (24, 25, 26, 31)] + [s for s in sizes if s <= 50][-1:])[:5]
     out += [raws[s] for s in want]
+    # size classes: > 1 KiB, >= 4 KiB, 16 KiB, > 64 KiB (sampled patterns)
+    for lo, hi in ((1000, 1100), (4096, 4200), (16384, 16500), (65536, 80000)):
+        big = [(l, ob, t) for l, ob, t in produced if l.startswith('raw') and t in UNKNOWN_TYPES and lo <= len(ob) - 24 <= hi]
+        out += big[:1]
     objs = [(l, ob, t) for l, ob, t in produced if not l.startswith('raw')]
     if ctx.thorough:
         pref = ['PoseMessage', 'MessageRequest', 'VersionInfoMessage', 'IMUOutput', 'GNSSInfoMessage', 'EventNotificationMessage']
@@ -493,13 +707,18 @@ def run(ctx):
     produced = enc_part(ctx, rn)
     msgs = pick_messages(ctx, produced)
     ctx.log('corrupting %d messages: %s' % (len(msgs), ', '.join('%s(%dB)' % (l.split(' ')[0] if not l.startswith('raw') else 'raw', len(b)) for l, b, _ in msgs)))
-    header_object_part(ctx, rn, msgs[:8])
+    header_object_part(ctx, rn, [m for m in msgs if len(m[1]) <= 600][:8])
+    header_history_part(ctx, rn, msgs)
+    ctx.log('header-object histories done')
+    stream_part(ctx, rn, produced)
+    ctx.log('streams done')
     corrupt_part(ctx, rn, msgs)
     ctx.coverage['rule'] = ('CRC: all 65 792 buffers of 1 and 2 bytes, random buffers (to 64 KiB) and initial values, all split points of buffers <= 64 bytes; '
                             'encoder: scenarios of 1-8 calls from counters around 0, 2^31 and 2^32, payload objects of every registered class whose default instance packs; '
                             'corruption: per message every single-bit flip of the CRC field and the protected region, every pair of flips for messages <= 64 bytes (sampled + all adjacent pairs otherwise), '
                             'bursts of width 2..32 at every start bit (end points, all ones, random interior) inside the region and inside the CRC field, and straddling bursts (information). '
                             'Every CalculateCRC(buf,len,init) probe runs at start alignments 0..7, once as the tail of an exact-size heap block (ASan reports over-reads) and once followed by non-zero bytes; whole messages are exact-size blocks at alignments 0 and 4 (framer input 0..7). Each pattern goes to MessageHeader.unpack(validate_crc=True), FusionEngineDecoder, IsValid, CalculateCRC(buffer) and the C++ framer (ASan/UBSan build). '
+                            'Also: CRC buffers around 1/4/16/64 KiB and 128 KiB with splits near both ends; payloads as bytes / bytearray / memoryview; histories on one encoder (same type different sources, interleaved types, after a refused call) and on one MessageHeader (calculate_crc, pack plain / with payload / into a sentinel-filled caller buffer at an offset, unpack(validate_crc) of good and corrupted data, validate_crc of several buffers); corrupted messages inside streams of valid ones through one decoder / one framer under every warn_on_error / logging / return_* option and six chunkings (size-field shrink, growth, overflow and wrap included); sampled patterns on messages of 1 KiB, 4 KiB, 16 KiB and 70 KB. '
                             'evaluations counts patterns; distinct counts messages and CRC/encoder cases.')
     ctx.coverage['exhaustive'] = False
     ctx.trusted_base += ['Coq 8.16.1 kernel + vm_compute (order facts of the CRC register, primality of 65537 by exhaustion)',
@@ -525,6 +744,16 @@ def replay(ctx, rec):
         print('IMPL ', vf.run_lines(PYH, [case['line']], env=vf.IMPL_ENV)[1][-1][:2000])
         print('MODEL', vf.run_lines(rn.model, [case['line']])[1][-1][:2000])
         print('SPEC  every call returns a message whose sequence number is (initial + k) mod 2^32')
+    elif case.get('op') == 'stream':
+        print('IMPL python decoder', vf.run_lines(PYH, [case['py_line']], env=vf.IMPL_ENV)[1][-1])
+        print('IMPL c++ framer    ', vf.run_lines(rn.cpp, [case['cpp_line']], env=ASAN_ENV)[1][-1])
+        print('SPEC scan (lazy)   ', vf.run_lines(rn.model, ['ST lazy 16777216 ' + case['stream_hex']])[1][-1])
+        print('SPEC scan (eager)  ', vf.run_lines(rn.model, ['ST eager 4072 ' + case['stream_hex']])[1][-1])
+        print('(frames as <length>#<sequence>#<crc>@<offset>; corrupted message at offset %s)' % case.get('corrupted_message_offset'))
+    elif case.get('op') == 'header-history':
+        l = case['full_line']
+        print('IMPL          ', vf.run_lines(PYH, [l], env=vf.IMPL_ENV)[1][-1])
+        print('MODEL and SPEC', vf.run_lines(rn.model, [l])[1][-1])
     elif case.get('op') == 'validate-sequence':
         l = case['full_line']
         print('IMPL          ', vf.run_lines(PYH, [l], env=vf.IMPL_ENV)[1][-1])
